@@ -98,7 +98,15 @@ impl Vm {
 
     pub fn prepare_eval(&mut self, cell: &Cell) -> Result<(), Error> {
         self.last_stacktrace = None;
-        let lambda = self.compile_runnable(cell)?;
+        let lambda = match self.compile_runnable(cell) {
+            Ok(lambda) => lambda,
+            Err(e) => {
+                // What the failed compilation allocated is garbage; without a collection
+                // point here a run of compile errors only grows the heap.
+                self.run_gc();
+                return Err(e);
+            }
+        };
         trace!("entry: \n{}", self.decompile_text(&lambda));
         let lambda = self.heap.put(lambda);
         self.ip.0 = lambda.as_ptr().unwrap();
